@@ -647,9 +647,6 @@ func runBehaviour(t *testing.T, in *vio.Input, bi int, b vio.Behaviour, v varian
 				return
 			}
 		case "InitFail":
-			for _, p := range queued[a.S] {
-				delete(expectArrive, p)
-			}
 			queued[a.S] = nil
 			if !waitCleanup(a.S, stepTimeout) {
 				brk("rejected session was not cleaned up")
@@ -672,9 +669,6 @@ func runBehaviour(t *testing.T, in *vio.Input, bi int, b vio.Behaviour, v varian
 					return
 				}
 			} else {
-				for _, p := range queued[a.S] {
-					delete(expectArrive, p)
-				}
 				queued[a.S] = nil
 				if !waitCleanup(a.S, stepTimeout) {
 					if pt, _ := w.waitParked(a.S, "uplink", 0, "relay.uplink.beforePack"); pt == "relay.uplink.beforePack" {
